@@ -6,4 +6,4 @@ Extraction "c13_model.ml" conv_anchor lenN dropN
   M_dict_int_encode M_offs_size dict_token M_dict_decode_top M_real_layout
   M_charset_encode M_charset_read M_predefined_charset
   M_encoding_encode M_encoding_read M_fdselect_encode M_fdselect_read
-  M_layout hdr_offsize M_width_encode M_width_decode M_width_roundtrip M_width_roundtrip_old.
+  M_layout hdr_offsize M_width_encode M_width_decode M_width_roundtrip M_width_roundtrip_old M_fm_write M_fm_read.
